@@ -849,8 +849,8 @@ func (pc ParseContext) compileCondWithoutControlVar(ctx context.Context, c ast.C
 }
 
 func (pc ParseContext) compilePostfixAndTouch(ctx context.Context, b ast.Branch, c ast.Children) (rel.Expr, error) {
-	if _, has := b["touch"]; has {
-		panic("unfinished")
+	if touch, has := b["touch"]; has {
+		return nil, fmt.Errorf("->* is not implemented: %s", touch.Scanner().Context(parser.DefaultLimit))
 	}
 	switch c.Scanner().String() {
 	case "count":
